@@ -129,6 +129,12 @@ def run(ctx):
     ctx.guarded('C04-first-match', d_first >= 8, _old_first)
 
     # ------------------------------------------------------------------ C04-kind-table
+    ctx.rule("C04-expansion", "rule sets of the supported class (pattern variables, _, literal identifiers, literal data, sub-lists, vectors, a "
+                              "final ellipsis per list incl. list sub-patterns under it; templates with ellipsis sub-templates) parsed by the "
+                              "crate's own transform_transformer and applied to uses of 0..3 items (atoms, lists, vectors, dotted forms): the "
+                              "expansion, or `no rule matches`, is the one the statement's matching relation gives")
+    from . import expandtables
+    expandtables.rule_expansion(ctx, "C04-expansion", "C04-no-match-error")
     ctx.rule("C04-kind-table", "decision table of match_datum over (pattern kind x datum kind)")
     kind_table(ctx, fb, md, mds)
 
